@@ -61,7 +61,10 @@ pub open spec fn only_length(start: Option<R32>, end: Option<R32>, middle: Optio
 pub open spec fn origin_extent(shape: String, len: real) -> (real, real) {
     if shape@ == "ellipse"@ { (0real - len / 2real, len / 2real) } else { (0real, len) }
 }
-pub open spec fn plain_shape(shape: String) -> bool { shape@ != "circle"@ && shape@ != "point"@ }
+pub open spec fn plain_shape(shape: String) -> bool { shape@ != "circle"@ && shape@ != "point"@ && shape@ != "text"@ }
+/// shapes without extent: a point, and a text (its anchor): located by ONE value per axis, whichever spelling gives it
+pub open spec fn located_shape(shape: String) -> bool { shape@ == "point"@ || shape@ == "text"@ }
+pub open spec fn first_of(a: Option<R32>, b: Option<R32>, c: Option<R32>) -> Option<R32> { if a is Some { a } else if b is Some { b } else { c } }
 
 pub open spec fn bx(b: BoundingBox) -> (real, real, real, real) { (val(b.x1), val(b.y1), val(b.x2), val(b.y2)) }
 pub open spec fn len_offset(l: Length, start: real, end: real) -> real {
@@ -168,7 +171,7 @@ impl Position {
 //@ - length is None ==> r is None
 //@end
 //@item src/position.rs :: impl Position :: fn to_bbox
-//@ strlit "line" "ellipse" "circle" "point"
+//@ strlit "line" "ellipse" "circle" "point" "text"
 //@ ensures
 //@ - n_given(self.xmin, self.xmax, self.cx, self.width) >= 2 && n_given(self.ymin, self.ymax, self.cy, self.height) >= 2 ==> r is Some     @@C11.to_bbox.sufficient
 //@ - forall|x1: real, y1: real, x2: real, y2: real|
@@ -184,6 +187,10 @@ impl Position {
 //@ - plain_shape(self.shape) && only_length(self.xmin, self.xmax, self.cx, self.width) && only_length(self.ymin, self.ymax, self.cy, self.height) ==> r is Some
 //@     && (val(r->Some_0.x1), val(r->Some_0.x2)) == origin_extent(self.shape, val(self.width->Some_0))
 //@     && (val(r->Some_0.y1), val(r->Some_0.y2)) == origin_extent(self.shape, val(self.height->Some_0))     @@C11.to_bbox.both_at_origin
+//@ - located_shape(self.shape) && !(n_given(self.xmin, self.xmax, self.cx, self.width) >= 2 && n_given(self.ymin, self.ymax, self.cy, self.height) >= 2)
+//@     && first_of(self.xmin, self.xmax, self.cx) is Some && first_of(self.ymin, self.ymax, self.cy) is Some ==> r is Some
+//@       && val(r->Some_0.x1) == val(first_of(self.xmin, self.xmax, self.cx)->Some_0) && val(r->Some_0.x2) == val(r->Some_0.x1)
+//@       && val(r->Some_0.y1) == val(first_of(self.ymin, self.ymax, self.cy)->Some_0) && val(r->Some_0.y2) == val(r->Some_0.y1)     @@C19.anchor.any_spelling @@C09.point.any_spelling
 //@ - self.shape@ == "circle"@ && n_given(self.xmin, self.xmax, self.cx, self.width) >= 2 && n_given(self.ymin, self.ymax, self.cy, self.height) < 2
 //@     && (self.ymin is Some || self.cy is Some || self.ymax is Some) ==> r is Some
 //@       && val(r->Some_0.y2) - val(r->Some_0.y1) == val(r->Some_0.x2) - val(r->Some_0.x1)     @@C11.to_bbox.circle_x.square
